@@ -353,7 +353,7 @@ func execAttack(w *world.World, s Step) bool {
 			return false
 		}
 		wm := p.Queue[0]
-		forged, class, name := deviantSMP(w, wm, s.I)
+		forged, class, name := deviantSMP(w, wm, s.I, s.F)
 		if forged == nil {
 			return false
 		}
@@ -409,7 +409,7 @@ func boundary(honest *big.Int, rng *rand.Rand) []*big.Int {
 
 // deviantSMP rebuilds the data message wm with variant number idx of its SMP TLV.
 // Returns the armoured message, the validity class of the payload and a name.
-func deviantSMP(w *world.World, wm *world.WireMsg, idx int) ([]byte, string, string) {
+func deviantSMP(w *world.World, wm *world.WireMsg, idx int, force string) ([]byte, string, string) {
 	full, err := ref.Reassemble(wm.Raw)
 	if err != nil {
 		return nil, "", ""
@@ -482,7 +482,7 @@ func deviantSMP(w *world.World, wm *world.WireMsg, idx int) ([]byte, string, str
 		}
 		return b
 	}
-	if t.Type == 3 && idx%7 == 3 && len(mpis) == 11 {
+	if force == "" && t.Type == 3 && idx%7 == 3 && len(mpis) == 11 {
 		// SMP2 with degenerate group elements and proofs that are nevertheless consistent
 		// (g2b = g3b = Pb = 1, Qb = 0, cP = H(5, 1, 0)): passes every hash check; only the
 		// group-element test can refuse it
@@ -523,7 +523,7 @@ func deviantSMP(w *world.World, wm *world.WireMsg, idx int) ([]byte, string, str
 		d.MAC = ref.HMAC1(keys.SendMAC, h.HdrBytes, d.Unsigned())
 		return ref.Armor(append(append([]byte{}, h.HdrBytes...), d.Bytes()...)), "bad", "t3-degenerate-consistent"
 	}
-	if idx%13 == 5 || idx%13 == 6 {
+	if force == "" && (idx%13 == 5 || idx%13 == 6) {
 		// an honest SMP payload next to a "disconnected" TLV in the same (authenticated) message:
 		// the session ends in the middle of the TLV list
 		disc := ref.TLV{Type: 1, Value: nil}
@@ -550,6 +550,10 @@ func deviantSMP(w *world.World, wm *world.WireMsg, idx int) ([]byte, string, str
 		total++
 	}
 	v := idx % total
+	// the count variants can be asked for by name (systematic families)
+	if k, ok := map[string]int{"count-1": 0, "count+1": 1, "count0": 2, "countmax": 3, "count2^28": 4}[force]; ok {
+		v = nfields*nb + k
+	}
 	class, name := "bad", ""
 	var newVal []byte
 	switch {
